@@ -274,6 +274,19 @@ def _d13():
     return bytes(copy.copy(m)) != bytes(m) or bytes(copy.deepcopy(m)) != bytes(m)
 
 
+def _d45():
+    """a read-but-unset sub-message of a field-less type: deepcopy gained `0a 00`, copy.copy changed the original"""
+    schema = [bpgen.M("M0", [bpgen.F("e", 1, "message", kind="u1"), bpgen.F("n", 2, "int32")]), bpgen.M("M1", [])]
+    C, E = bpgen.build_bp(schema)
+    m = C(n=1)
+    m.e                     # a read: the default E() is stored in the slot
+    b = bytes(m)
+    if bytes(copy.deepcopy(m)) != b:
+        return True
+    c = copy.copy(m)
+    return bytes(c) != b or bytes(m) != b
+
+
 def _d04():
     schema = [bpgen.M("M0", [bpgen.F("m", 1, "map", mapK="string", mapV="message", mapVKind="u1")]), bpgen.M("M1", [bpgen.F("x", 1, "int32")])]
     C, Sub = bpgen.build_bp(schema)
@@ -297,7 +310,7 @@ def _d05():
 
 
 def replay_known(chk, entry):
-    return {"D13": _d13, "D04": _d04, "D05": _d05}[entry["id"]]()
+    return {"D13": _d13, "D04": _d04, "D05": _d05, "D45": _d45}[entry["id"]]()
 
 
 def classify(failure, known):
